@@ -429,6 +429,9 @@ def run(ctx):
             ctx.observe("add_edges while a removed node still has connections raises (not decided by the statement)",
                         {"h": [(s["a"], s["x"]) for s in h[: r["step"] + 1]], "error": r["what"]})
             continue
+        if len(ctx.violations) >= 12:
+            ctx.extra["violations_not_recorded"] = ctx.extra.get("violations_not_recorded", 0) + 1
+            continue
         ctx.violation(f"DiGraph disagrees with DiGraphSpec at step {r['step']}: {r['what']}",
                       case={"tlc": h, "variant": i % 4}, expected=expected_of(h[min(r["step"], len(h) - 1)]),
                       observed=r["what"])
